@@ -179,6 +179,21 @@ fn test(h: &History, obs: &mut Obs) -> CheckResult {
             rounds.len()
         );
         let sel: Vec<&BuiltRound> = rounds.iter().map(|k| &built[*k]).collect();
+        // the flow's table spans the TTLs its own rounds probed / reported, no more
+        let lo = sel.iter().flat_map(|b| b.probes.iter()).filter_map(|p| match p {
+            ProbeStatus::Complete(c) => Some(c.ttl.0),
+            ProbeStatus::Awaited(a) => Some(a.ttl.0),
+            ProbeStatus::Failed(f) => Some(f.ttl.0),
+            _ => None,
+        }).min().unwrap_or(0);
+        let hi = sel.iter().map(|b| b.largest_ttl).max().unwrap_or(0);
+        let want_len = if lo == 0 || hi < lo { 0 } else { usize::from(hi - lo) + 1 };
+        vensure!(
+            state.hops_for_flow(fid).len() == want_len,
+            "flow-table-length",
+            "flow {id}: hops_for_flow has {} entries, the rounds attributed to it ({rounds:?}) span ttl {lo}..={hi}",
+            state.hops_for_flow(fid).len()
+        );
         let m = aggregate(&sel);
         for hop in state.hops_for_flow(fid) {
             if hop.ttl() != 0 {
